@@ -454,12 +454,26 @@ Eval vm_compute in (failing g_lang ++ "|" ++ failing g_stage ++ "|" ++ failing g
 """ % ";\n".join(rows))
 
 
+# fixed trees on the edges the random stream rarely visits: empty comment, list index 0, a range crossing 9 -> 10, a hex offset
+A64_FIXED_TREES = [
+    {"coq": '(WLComment "")', "line": "//", "partial_ok": True},
+    {"coq": '(WLLabel "foo" (Some ""))', "line": "foo: //", "partial_ok": True},
+    {"coq": '(WLInstr "mov" [] (Some ""))', "line": "mov //", "partial_ok": True},
+    {"coq": '(WLInstr "ld1" [(WList [(mkwreg "v"%char 0 (Some ("", "s"%char))); (mkwreg "v"%char 1 (Some ("", "s"%char)))] (Some "0")); '
+            '(WMem (BX false 0) MTNone MCNone)] None)', "line": "ld1 {v0.s, v1.s}[0], [x0]", "partial_ok": True},
+    {"coq": '(WLInstr "ld1" [(WRange (mkwreg "v"%char 9 (Some ("4", "s"%char))) (mkwreg "v"%char 11 (Some ("4", "s"%char))) None); '
+            '(WMem (BX false 0) MTNone (MCPost true (mknum false false "64")))] None)', "line": "ld1 {v9.4s - v11.4s}, [x0], #64", "partial_ok": True},
+    {"coq": '(WLInstr "ldr" [(WReg (RPlain (mkwreg "x"%char 0 None))); (WMem (BSp "sp") (MTOff true (mknum true true "1f")) MCPre)] None)',
+     "line": "ldr x0, [sp, #-0x1f]!", "partial_ok": True},
+]
+
+
 def a64_tree_stream(tie, p, cases, per=200):
     """cases: dicts of harness/c10_gen (coq = the wline term, line = a rendering); only trees of the language of the property"""
     ctx = tie.ctx
     if not tie.ok:
         return
-    cases = [c for c in cases if c.get("partial_ok")]
+    cases = A64_FIXED_TREES + [c for c in cases if c.get("partial_ok")]
     shards = [("post_a64_tree_%03d" % k, a64_tree_shard(tie, p, cases[i:i + per])) for k, i in enumerate(range(0, len(cases), per))]
     res = ctx.coq_eval_many(shards, timeout=900)
     names = ["tree is in the language wline_okb fx_all", "grammar stage: gr_stage tree = REAL pyparsing result (every element parse_line tries, "
